@@ -3,6 +3,8 @@
 package stub
 
 import (
+	"debug/elf"
+	"debug/gosym"
 	"fmt"
 	"os"
 	"runtime"
@@ -145,9 +147,57 @@ func holderRound(rep *vmon.Report, rng *vmon.Rng, gor int, maxSize int, reset bo
 	}
 }
 
+// reserveExtent finds the body of the assembly function stub.Placeholder from the binary's own pclntab (the largest
+// function of that name: the Go ABI wrapper of the same name is tiny), independently of goom's own min/max.
+func reserveExtent() (lo, hi uintptr, err error) {
+	exe, err := os.Executable()
+	if err != nil {
+		return 0, 0, err
+	}
+	f, err := elf.Open(exe)
+	if err != nil {
+		return 0, 0, err
+	}
+	defer f.Close()
+	ts, ps := f.Section(".text"), f.Section(".gopclntab")
+	if ts == nil || ps == nil {
+		return 0, 0, fmt.Errorf("no .text/.gopclntab")
+	}
+	pd, err := ps.Data()
+	if err != nil {
+		return 0, 0, err
+	}
+	tab, err := gosym.NewTable(nil, gosym.NewLineTable(pd, ts.Addr))
+	if err != nil {
+		return 0, 0, err
+	}
+	for i := range tab.Funcs {
+		fu := &tab.Funcs[i]
+		if strings.HasSuffix(fu.Name, "internal/bytecode/stub.Placeholder") && uintptr(fu.End-fu.Entry) > hi-lo {
+			lo, hi = uintptr(fu.Entry), uintptr(fu.End)
+		}
+	}
+	if hi-lo < 1024 {
+		return 0, 0, fmt.Errorf("Placeholder body not found")
+	}
+	return lo, hi, nil
+}
+
 func TestC20Holder(t *testing.T) {
 	rep := vmon.NewReport("C20")
 	defer rep.Write()
+	if lo, hi, err := reserveExtent(); err != nil {
+		rep.Note("reserve_extent", "independent extent unavailable: "+err.Error())
+	} else {
+		rep.Eval(1)
+		rep.Class("reserve-extent-cross-check")
+		if placeHolderIns.min < lo || placeHolderIns.max > hi || placeHolderIns.min >= placeHolderIns.max {
+			rep.Violate("C20/reserve-bounds-outside-placeholder-body", fmt.Sprintf("goom's reserve [%#x,%#x) is not inside the body of stub.Placeholder [%#x,%#x): requests near exhaustion would be granted text of other functions",
+				placeHolderIns.min, placeHolderIns.max, lo, hi), nil)
+			// judge every region against the real extent from here on
+			placeHolderIns.max = hi
+		}
+	}
 	shard, _ := vmon.Shard()
 	rng := vmon.NewRng(vmon.Seed(), uint64(2000+shard))
 	rounds := vmon.EnvInt("VERIF_C20_ROUNDS", 150)
